@@ -66,7 +66,12 @@ def build_pool(I, rnd, mode, e, n=1):
         k = rnd.random()
         b = I.gen_bytes(rnd, mode, e)
         if pfx_specs and k < 0.55:
-            p = b"".join(I.word_bytes(pfx_specs[rnd.randrange(len(pfx_specs))], rnd, e) for _ in range(rnd.randrange(1, 4)))
+            npfx = rnd.randrange(1, 4)
+            if rnd.random() < 0.12:
+                # a run of prefixes as long as / longer than the decoder's fetch window
+                ml = I.d.maxlen
+                npfx = [ml - 1, ml, ml + 1, 2 * ml][rnd.randrange(4)]
+            p = b"".join(I.word_bytes(pfx_specs[rnd.randrange(len(pfx_specs))], rnd, e) for _ in range(max(1, npfx)))
             kk = rnd.random()
             if kk < 0.2:
                 b = p  # prefix only
